@@ -719,6 +719,11 @@ qtreetbl_obj_t qtreetbl_find_nearest(qtreetbl_t *tbl, const void *name,
     }
 
     qtreetbl_lock(tbl);
+    if (tbl->root != NULL) {
+        // the root has no parent; a stale link from when it was a child
+        // would send the climb below (and getnext) into unrelated nodes.
+        tbl->root->next = NULL;
+    }
     qtreetbl_obj_t *obj, *lastobj;
     for (obj = lastobj = tbl->root; obj != NULL;) {
         int cmp = tbl->compare(name, namesize, obj->name, obj->namesize);
